@@ -220,6 +220,12 @@ func genC20Html(r *rng, n int, w *bufio.Writer) {
 		in := body
 		if useGz {
 			in = gz(body)
+			if r.chance(1, 2) {
+				// a gzip stream of several members (group R4, op_r4_c20.go); it decompresses to the same body
+				var d string
+				in, _, d = gzMembers(r, body, window)
+				note += "; " + d
+			}
 			h.Set("Content-Encoding", "gzip")
 		} else if r.chance(1, 4) {
 			h.Set("Content-Encoding", "identity")
